@@ -266,6 +266,7 @@ pub fn run(tier: Tier) -> i32 {
         Box::new(ms_e(if t { 1 } else { 0 })),
         Box::new(string_family()),
         Box::new(crate::families::scale_family(true)),
+        Box::new(crate::families::sorted_run_family()),
         Box::new(crate::families::unicode_family()),
         Box::new(crate::families::relation_family()),
         Box::new(crate::families::huge_family(0)),
